@@ -77,6 +77,9 @@ PyObject *CPyBytes_GetSlice(PyObject *obj, CPyTagged start, CPyTagged end) {
         }
         startn = Clamp(startn, 0, len);
         endn = Clamp(endn, 0, len);
+        if (endn < startn) {
+            endn = startn;
+        }
         Py_ssize_t slice_len = endn - startn;
         if (PyBytes_Check(obj)) {
             return PyBytes_FromStringAndSize(PyBytes_AS_STRING(obj) + startn, slice_len);
